@@ -124,7 +124,7 @@ pub fn run(tier: &str, only: Option<&Value>) -> i32 {
     let bs = bases();
     let un = unrelated();
     let all = cases();
-    rep.rule = "E1 over pairs (S, S'): S one of eleven base input sets around an observed module `o` (stand-alone; importing a module, a type, a nested module, transitively; using an extern type), S' = S plus one unrelated module (17 bodies chosen to collide by name with o's types, its generated vftable struct, its enum, its extern value, to import o, to derive from it, ...) at one of ten module paths (incl. child paths of o and of an imported module, and the paths of types that o imports by name or reaches through a module import), or plus two such modules, added before or after S; also S' = S plus an unreferenced type in an imported module. Pairs whose S' is rejected are skipped and counted. Oracle: o's output file byte-identical. distinct = distinct S' texts".into();
+    rep.rule = "E1 over pairs (S, S'): S one of eleven base input sets around an observed module `o` (stand-alone; importing a module, a type, a nested module, transitively; using an extern type), S' = S plus one unrelated module (17 bodies chosen to collide by name with o's types, its generated vftable struct, its enum, its extern value, to import o, to derive from it, ...) at one of ten module paths (incl. child paths of o and of an imported module, and the paths of types that o imports by name or reaches through a module import), or plus two such modules, added before or after S; also S' = S plus an unreferenced type in an imported module; and, through pyxis::build on real directories, an observed file at depth 1..3 plus one unrelated file below, beside or above it. Pairs whose S' is rejected are skipped and counted. Oracle: o's output file byte-identical. distinct = distinct S' texts".into();
     let only_i = only.map(|l| (l["index"].as_u64().unwrap_or(0) as usize, l["ps"].as_u64().unwrap_or(8) as usize));
     for ps in [4usize, 8] {
         if matches!(only_i, Some((_, p)) if p != ps) {
@@ -221,6 +221,67 @@ pub fn run(tier: &str, only: Option<&Value>) -> i32 {
                             }
                         } else {
                             rep.count("pairs_skipped_changed_set_rejected", 1);
+                        }
+                    }
+                }
+            }
+        }
+    }
+    // the same question through `pyxis::build` on real directories (file discovery order, `add_file`): an
+    // unrelated file below, beside or above the observed module's file leaves its output file unchanged
+    if only.is_none() {
+        let root = util::scratch_root().join("c19-dirs");
+        let observed_text = "pub type Widget {\n    vftable {\n        pub fn draw(&self);\n    },\n    pub x: u32,\n    pub y: u32,\n}\npub enum Kind: u8 {\n    A,\n    B,\n}\n#[address(0x1000)]\npub extern g: u32;\n";
+        let unrelated_text = "pub type Widget {\n    pub z: [u64; 3],\n}\npub type Other {\n    pub w: *const Widget,\n}\n";
+        let build_dir = |tag: &str, files: &[(String, &str)], ps: usize| -> Result<std::collections::BTreeMap<String, String>, String> {
+            let dir = root.join(tag);
+            let _ = std::fs::remove_dir_all(&dir);
+            let (i, o) = (dir.join("in"), dir.join("out"));
+            std::fs::create_dir_all(&o).map_err(|e| e.to_string())?;
+            for (p, t) in files {
+                let f = i.join(format!("{p}.pyxis"));
+                std::fs::create_dir_all(f.parent().unwrap()).map_err(|e| e.to_string())?;
+                std::fs::write(&f, t).map_err(|e| e.to_string())?;
+            }
+            match std::panic::catch_unwind(std::panic::AssertUnwindSafe(|| pyxis::build(&i, &o, ps))) {
+                Err(_) => Err("PANIC".into()),
+                Ok(Err(e)) => Err(format!("{e:#}")),
+                Ok(Ok(())) => {
+                    let mut files = std::collections::BTreeMap::new();
+                    pipe::collect_files(&o, &o, &mut files).map_err(|e| e.to_string())?;
+                    Ok(files)
+                }
+            }
+        };
+        for ps in [4usize, 8] {
+            for obs in ["ui", "n/ui", "n/m/ui"] {
+                let parent = obs.rsplit_once('/').map(|(p, _)| format!("{p}/")).unwrap_or_default();
+                let base = vec![(obs.to_string(), observed_text)];
+                let Ok(alone) = build_dir("base", &base, ps) else {
+                    rep.machinery(format!("directory base set {obs} is rejected at ps {ps}"));
+                    continue;
+                };
+                let ofile = format!("{obs}.rs");
+                for upath in [format!("{obs}/detail"), format!("{obs}/detail/deep"), format!("{parent}aaa"), format!("{parent}zzz"), "aaa".to_string(), "zzz/deep".to_string(), format!("{parent}u")] {
+                    if upath == obs {
+                        continue;
+                    }
+                    let mut files = base.clone();
+                    files.push((upath.clone(), unrelated_text));
+                    rep.states += 1;
+                    rep.traces += 1;
+                    rep.evaluations += 1;
+                    rep.transitions += 1;
+                    rep.distinct_str(&format!("dir|{obs}|{upath}|{ps}"));
+                    let input = Input { modules: files.iter().map(|(p, t)| (p.replace('/', "::"), t.to_string())).collect() };
+                    match build_dir("changed", &files, ps) {
+                        Err(e) if e == "PANIC" => rep.violation(Violation { key: "panic".into(), features: vec!["through_pyxis_build".into()], input, ps, detail: "pyxis::build panicked".into(), locator: json!({"space": "dirs", "ps": ps}) }),
+                        Err(_) => rep.count("pairs_skipped_changed_set_rejected", 1),
+                        Ok(f) => {
+                            rep.count("pairs_compared", 1);
+                            if f.get(&ofile) != alone.get(&ofile) {
+                                rep.violation(Violation { key: "observed_module_output_changed".into(), features: vec!["through_pyxis_build".into()], input, ps, detail: format!("observed file {ofile} with the unrelated file {upath}.pyxis present:\n--- without ---\n{}\n--- with ---\n{}", alone.get(&ofile).cloned().unwrap_or_default(), f.get(&ofile).cloned().unwrap_or("<no such file>".into())), locator: json!({"space": "dirs", "ps": ps}) });
+                            }
                         }
                     }
                 }
